@@ -115,7 +115,9 @@ func TestVerifC19Collector(t *testing.T) {
 		b, _ := json.Marshal(v)
 		w.Write(b)
 		w.WriteByte('\n')
+		w.Flush() // a collector that panics in its goroutine kills the process: every line is on disk first
 	}
+	intentPath := os.Getenv("VERIF_INTENT")
 	old := http.DefaultTransport
 	defer func() { http.DefaultTransport = old }()
 	log := logger.NewLogger(0)
@@ -138,6 +140,7 @@ func TestVerifC19Collector(t *testing.T) {
 			last    int
 			stopped bool
 			started bool
+			aged    bool
 		)
 		state := func() map[string]interface{} {
 			reqs := rec.snapshot()
@@ -154,14 +157,15 @@ func TestVerifC19Collector(t *testing.T) {
 					idsOK = false
 				}
 			}
-			if n := len(reqs); n > 0 {
+			// key paths and header names of EVERY request (a field that is only sometimes present must show)
+			for _, q := range reqs {
 				var pl interface{}
-				if json.Unmarshal(reqs[n-1].body, &pl) == nil {
+				if json.Unmarshal(q.body, &pl) == nil {
 					vC19Paths("", pl, keys)
 				} else {
 					keys["<not json>"] = true
 				}
-				for h := range reqs[n-1].header {
+				for h := range q.header {
 					hdrs[h] = true
 				}
 			}
@@ -180,7 +184,7 @@ func TestVerifC19Collector(t *testing.T) {
 			last = len(reqs)
 			return map[string]interface{}{"enabled": cfg != nil && cfg.Enabled, "collector": started && c != nil && c.config.Enabled,
 				"userData": false, "sent": len(reqs), "keys": vC19List(keys), "hdrs": vC19List(hdrs), "leaks": vC19List(leaks),
-				"urlOK": urlOK, "idsOK": idsOK}
+				"urlOK": urlOK, "idsOK": idsOK, "aged": aged}
 		}
 		waitMore := func() {
 			deadline := time.Now().Add(window)
@@ -192,9 +196,13 @@ func TestVerifC19Collector(t *testing.T) {
 			}
 		}
 		emit(map[string]interface{}{"a": "Open", "t": b.ID, "route": route, "st": state(), "obs": map[string]interface{}{"a": "Open", "err": ""}})
-		for _, s := range b.Steps {
+		for sn, s := range b.Steps {
 			a := s["a"].(string)
 			obs := map[string]interface{}{"a": a, "err": ""}
+			if intentPath != "" {
+				ib, _ := json.Marshal(map[string]interface{}{"t": b.ID, "step": sn, "a": a, "route": route, "st": state()})
+				os.WriteFile(intentPath, ib, 0o644)
+			}
 			switch a {
 			case "LoadConfig":
 				iv := map[string]time.Duration{"custom": interval, "default": DefaultInterval, "zero": 0, "negative": -5 * time.Second}[route["ival"].(string)]
@@ -225,6 +233,12 @@ func TestVerifC19Collector(t *testing.T) {
 					c.Stop()
 					stopped = true
 				}
+			case "Age":
+				// the collector has been up for more than a day (its clock is the start time it keeps)
+				if c != nil {
+					c.startTime = c.startTime.Add(-25 * time.Hour)
+				}
+				aged = true
 			case "UserData":
 			}
 			emit(map[string]interface{}{"a": a, "t": b.ID, "route": route, "st": state(), "obs": obs})
